@@ -484,6 +484,11 @@ where
         for i in from..stored_to {
             if unlikely(hole_iter.peek() == Some(&&i)) {
                 hole_iter.next();
+                // A rollback can leave a deleted slot with an overlay entry as well:
+                // step over it, or every later overlay entry is missed.
+                if update_iter.peek().is_some_and(|&(&k, _)| k == i) {
+                    update_iter.next();
+                }
                 byte_off += Self::SIZE_OF_T;
                 continue;
             }
@@ -539,6 +544,11 @@ where
         for i in from..stored_to {
             if unlikely(hole_iter.peek() == Some(&&i)) {
                 hole_iter.next();
+                // A rollback can leave a deleted slot with an overlay entry as well:
+                // step over it, or every later overlay entry is missed.
+                if update_iter.peek().is_some_and(|&(&k, _)| k == i) {
+                    update_iter.next();
+                }
                 byte_off += Self::SIZE_OF_T;
                 continue;
             }
